@@ -14,6 +14,7 @@ type EthBlockOpts struct {
 	TimeoutHeight *uint64
 	SeqOffset     uint64
 	Memo          string
+	Payload       *goattypes.ExecutionPayload // carry exactly this payload (e.g. a stale one) instead of building a fresh one
 }
 
 // BuildEthBlockTx assembles MsgNewEthBlock for the next height the way an honest proposer
@@ -42,6 +43,10 @@ func (n *Node) BuildEthBlockTx(o EthBlockOpts) ([]byte, *goattypes.ExecutionPayl
 		return nil, nil, err
 	}
 	payload := goattypes.ExecutableDataToPayload(data, beacon, reqs)
+	if o.Payload != nil {
+		cp := *o.Payload
+		payload = &cp
+	}
 	if o.MutatePayload != nil {
 		o.MutatePayload(payload)
 		if o.Rehash {
